@@ -85,3 +85,101 @@ Proof.
   rewrite N.land_ones. rewrite N.mod_small by (rewrite two64 in *; lia).
   replace (ctr + l / 1024 <? 2 ^ 64) with true by lia. reflexivity.
 Qed.
+
+(* ---- more formulas of lib.rs / hazmat.rs (translated source text) --------------------------- *)
+Lemma cast64_small x : x < 2 ^ 64 -> N.land x (N.ones 64) = x.
+Proof. intros H. rewrite N.land_ones. apply N.mod_small. exact H. Qed.
+
+Lemma rs_input_offset_spec c : c * 1024 < 2 ^ 64 -> rs_input_offset c = Ok (c * 1024).
+Proof.
+  intros H. unfold rs_input_offset, mb, mu, mi_mul, mi_cast, fits. cbn [bind].
+  change rs_CHUNK_LEN with 1024. change (N.land 1024 (N.ones 64)) with 1024.
+  replace (c * 1024 <? 2 ^ 64) with true by lia. reflexivity.
+Qed.
+
+Lemma rs_count_so_far_spec c : c * 1024 < 2 ^ 64 -> rs_count_so_far c = Ok (c * 1024).
+Proof.
+  intros H. unfold rs_count_so_far, mb, mu, mi_mul, mi_cast, fits. cbn [bind].
+  change rs_CHUNK_LEN with 1024. change (N.land 1024 (N.ones 64)) with 1024.
+  replace (c * 1024 <? 2 ^ 64) with true by lia. reflexivity.
+Qed.
+
+Lemma ones_pred e : N.ones e = 2 ^ e - 1.
+Proof. rewrite N.ones_equiv. lia. Qed.
+
+(* the shrink-loop condition on a power-of-two subtree_len: count_so_far mod subtree_len <> 0 *)
+Lemma rs_shrink_cond_spec e q : e < 64 ->
+  rs_shrink_cond (2 ^ e) q = Ok (negb (q mod 2 ^ e =? 0)).
+Proof.
+  intros He. unfold rs_shrink_cond, mcmp, mb, mu, mi_and, mi_sub, mi_cast, nneb. cbn [bind].
+  pose proof (pow2_pos e) as Hp. replace (1 <=? 2 ^ e) with true by lia. cbn [bind].
+  assert (H64 : 2 ^ e < 2 ^ 64) by (apply N.pow_lt_mono_r; lia).
+  rewrite cast64_small by lia. rewrite <- ones_pred, N.land_comm, N.land_ones. reflexivity.
+Qed.
+
+Lemma rs_subtree_chunks_spec s : s < 2 ^ 64 -> rs_subtree_chunks s = Ok (s / 1024).
+Proof.
+  intros H. unfold rs_subtree_chunks, mu, mb, mi_div, mi_cast. cbn [bind].
+  change rs_CHUNK_LEN with 1024. change (1024 =? 0) with false. cbn iota. cbn [bind].
+  rewrite cast64_small; [reflexivity|]. rewrite two64 in *. lia.
+Qed.
+
+Lemma rs_right_cv_counter_spec ctr sc : ctr + sc / 2 < 2 ^ 64 -> rs_right_cv_counter ctr sc = Ok (ctr + sc / 2).
+Proof.
+  intros H. unfold rs_right_cv_counter, mb, mi_add, mi_div, fits. cbn [bind].
+  change (2 =? 0) with false. cbn iota. cbn [bind].
+  replace (ctr + sc / 2 <? 2 ^ 64) with true by lia. reflexivity.
+Qed.
+
+Lemma rs_count_spec ctr init c : init <= ctr -> (ctr - init) * 1024 + c < 2 ^ 64 ->
+  rs_count ctr init c = Ok ((ctr - init) * 1024 + c).
+Proof.
+  intros Hi H. unfold rs_count, mb, mu, mi_add, mi_mul, mi_sub, mi_cast, fits. cbn [bind].
+  replace (init <=? ctr) with true by lia. cbn [bind].
+  change rs_CHUNK_LEN with 1024. change (N.land 1024 (N.ones 64)) with 1024.
+  replace ((ctr - init) * 1024 <? 2 ^ 64) with true by lia. cbn [bind].
+  rewrite cast64_small by lia.
+  replace ((ctr - init) * 1024 + c <? 2 ^ 64) with true by lia. reflexivity.
+Qed.
+
+(* trailing zeros *)
+Lemma tz_pos_spec q : exists odd, N.pos q = 2 ^ tz_pos q * (2 * odd + 1).
+Proof.
+  induction q as [q IH|q IH|].
+  - exists (N.pos q). cbn [tz_pos]. change (2 ^ 0) with 1. lia.
+  - destruct IH as [o Ho]. exists o. cbn [tz_pos]. rewrite N.add_1_l, N.pow_succ_r'.
+    change (N.pos q~0) with (2 * N.pos q). rewrite Ho. lia.
+  - exists 0. reflexivity.
+Qed.
+
+Lemma tz_divides W c : 0 < c -> (2 ^ tz W c | c) /\ 2 ^ tz W c <= c.
+Proof.
+  intros H. destruct c as [|q]; [lia|]. cbn [tz].
+  destruct (tz_pos_spec q) as [o Ho]. split.
+  - exists (2 * o + 1). rewrite Ho. lia.
+  - pose proof (pow2_pos (tz_pos q)). nia.
+Qed.
+
+(* hazmat::max_subtree_len, as written in the source *)
+Theorem rs_max_subtree_len_spec c : 0 < c -> c < 2 ^ 54 ->
+  rs_max_subtree_len (c * 1024) = Ok (Some (1024 * 2 ^ tz 64 c)).
+Proof.
+  intros Hc Hlt. assert (H54 : 2 ^ 54 = 18014398509481984) by reflexivity.
+  unfold rs_max_subtree_len. replace (c * 1024 =? 0) with false by lia.
+  unfold mb, mu, mi_rem, mi_div, mi_shl, mi_mul, mi_tz, mi_cast, fits. cbn [bind].
+  change rs_CHUNK_LEN with 1024. change (N.land 1024 (N.ones 64)) with 1024.
+  change (1024 =? 0) with false. cbn iota. cbn [bind].
+  replace (c * 1024 mod 1024) with 0 by (rewrite N.mod_mul; lia).
+  change (0 =? 0) with true. cbn [check bind].
+  rewrite N.div_mul by lia.
+  destruct (tz_divides 64 c Hc) as [Hd Hle].
+  assert (Ht : tz 64 c < 54).
+  { apply (N.pow_lt_mono_r_iff 2); lia. }
+  replace (tz 64 c <? 64) with true by lia. cbn [bind].
+  rewrite N.shiftl_1_l. rewrite cast64_small by (apply N.pow_lt_mono_r; lia).
+  replace (2 ^ tz 64 c * 1024 <? 2 ^ 64) with true by (rewrite two64; lia). cbn [bind].
+  f_equal. f_equal. lia.
+Qed.
+
+Theorem rs_max_subtree_len_zero : rs_max_subtree_len 0 = Ok None.
+Proof. reflexivity. Qed.
